@@ -330,3 +330,124 @@ Proof.
   - split; [discriminate|]. intros [ds' [E _]]. discriminate.
   - split; [discriminate|]. intros [ds' [E _]]. discriminate.
 Qed.
+
+(* ------------------------------------------------------------------ input order *)
+
+(* Only the sublists per date and kind matter: two journals whose directives of each date and
+   kind are the same lists (however the dates and kinds are interleaved, e.g. spread over
+   files in any arrival order) have the same canonical sequence. *)
+Lemma sel_date_in ds dt : In dt (map ddate ds) -> exists d k, In d (sel ds dt k).
+Proof.
+  rewrite in_map_iff. intros [d [H1 H2]]. exists d, (dkind d).
+  unfold sel. apply filter_In. split; [exact H2|]. rewrite H1, !Z.eqb_refl. reflexivity.
+Qed.
+
+Lemma canonical_by_sel ds1 ds2 :
+  (forall dt k, sel ds1 dt k = sel ds2 dt k) -> canonical ds1 = canonical ds2.
+Proof.
+  intros H. unfold canonical.
+  assert (Hd : dates ds1 = dates ds2).
+  { apply sorted_unique; try apply dates_sorted.
+    intros x. rewrite !dates_in. split; intros Hx; apply sel_date_in in Hx; destruct Hx as [d [k Hx]].
+    - rewrite H in Hx. apply sel_in in Hx. destruct Hx as [H1 [H2 _]]. rewrite <- H2. apply in_map. exact H1.
+    - rewrite <- H in Hx. apply sel_in in Hx. destruct Hx as [H1 [H2 _]]. rewrite <- H2. apply in_map. exact H1. }
+  rewrite Hd. apply flat_map_ext. intros dt. unfold of_day. rewrite !H. reflexivity.
+Qed.
+
+Theorem order_irrelevant ds1 ds2 :
+  (forall dt k, sel ds1 dt k = sel ds2 dt k) ->
+  (wellformed ds1 <-> wellformed ds2) /\
+  (syntactic ds1 -> syntactic ds2 -> (check_model ds1 = VOk <-> check_model ds2 = VOk)).
+Proof.
+  intros H. assert (W : wellformed ds1 <-> wellformed ds2).
+  { unfold wellformed, events. rewrite (canonical_by_sel ds1 ds2 H). reflexivity. }
+  split; [exact W|]. intros S1 S2. rewrite (check_iff ds1 S1), (check_iff ds2 S2). exact W.
+Qed.
+
+(* ------------------------------------------------------------------ witnesses *)
+
+Definition w_chf : commodity := [67; 72; 70].
+Definition w_assets_a : account := [s_Assets; [65]].
+Definition w_assets_b : account := [s_Assets; [66]].
+Definition w_income_i : account := [s_Income; [73]].
+Definition w_d (n : Z) : Z := 737425 + n.     (* 2020-01-01 + n *)
+
+(* finding C04-zero-assertion: open A; the next day "balance Assets:A 0 CHF" *)
+Definition w_zero : list sdirective :=
+  [ SOpen (w_d 0) w_assets_a; SAssert (w_d 1) [mkBalance w_assets_a (mkDec 0 0) w_chf] ].
+
+(* finding C04-nonAL-assertion: open Income:I; the next day "balance Income:I 0 CHF" *)
+Definition w_nonal : list sdirective :=
+  [ SOpen (w_d 0) w_income_i; SAssert (w_d 1) [mkBalance w_income_i (mkDec 0 0) w_chf] ].
+
+Lemma zero_refuted :
+  exists sds ds, parse_directives sds = MOk ds /\ syntactic ds /\ wellformed ds /\
+                 check_cmd false sds <> COk tt /\ check_cmd_fixed sds = COk tt.
+Proof.
+  exists w_zero. eexists. split; [vm_compute; reflexivity|].
+  split; [apply syntactic_b_spec; vm_compute; reflexivity|].
+  split; [apply wellformed_b_spec; vm_compute; reflexivity|].
+  split; [vm_compute; discriminate|vm_compute; reflexivity].
+Qed.
+
+(* the same with a booking: 5 CHF from Income:I to Assets:A, then "balance Income:I -5 CHF";
+   rejected also when only the missing-position defect is repaired ([check_cmd true]) *)
+Definition w_nonal2 : list sdirective :=
+  [ SOpen (w_d 0) w_income_i; SOpen (w_d 0) w_assets_a;
+    STxn (mkStxn (w_d 1) [] [mkBooking w_income_i w_assets_a (mkDec 5 0) w_chf] None None);
+    SAssert (w_d 2) [mkBalance w_income_i (mkDec (-5) 0) w_chf] ].
+
+Lemma nonal_refuted :
+  exists sds ds, parse_directives sds = MOk ds /\ syntactic ds /\ wellformed ds /\
+                 check_cmd false sds <> COk tt /\ check_cmd_fixed sds = COk tt.
+Proof.
+  exists w_nonal. eexists. split; [vm_compute; reflexivity|].
+  split; [apply syntactic_b_spec; vm_compute; reflexivity|].
+  split; [apply wellformed_b_spec; vm_compute; reflexivity|].
+  split; [vm_compute; discriminate|vm_compute; reflexivity].
+Qed.
+
+Lemma nonal_refuted_lenient :
+  exists sds ds, parse_directives sds = MOk ds /\ syntactic ds /\ wellformed ds /\
+                 check_cmd false sds <> COk tt /\ check_cmd true sds <> COk tt /\ check_cmd_fixed sds = COk tt.
+Proof.
+  exists w_nonal2. eexists. split; [vm_compute; reflexivity|].
+  split; [apply syntactic_b_spec; vm_compute; reflexivity|].
+  split; [apply wellformed_b_spec; vm_compute; reflexivity|].
+  split; [vm_compute; discriminate|]. split; [vm_compute; discriminate|vm_compute; reflexivity].
+Qed.
+
+(* a well-formed journal: open A and B, book 5.00 CHF from A to B, assert both (two lines),
+   book it back, all on one day; close B the same day; reopen B later and assert zero. *)
+Definition w_good : list directive :=
+  let five := mkDec 500 (-2) in
+  [ DClose (w_d 0) w_assets_b;
+    DAssert (w_d 0) [mkBalance w_assets_a (mkDec 0 0) w_chf; mkBalance w_assets_b (mkDec 0 (-1)) w_chf];
+    DTxn (mkTxn (w_d 0) [] (pair_build w_assets_a w_assets_b w_chf five dec_nil) None);
+    DTxn (mkTxn (w_d 0) [] (pair_build w_assets_b w_assets_a w_chf five dec_nil) None);
+    DOpen (w_d 0) w_assets_b;
+    DOpen (w_d 0) w_assets_a;
+    DAssert (w_d 9) [mkBalance w_assets_b (mkDec 0 0) w_chf];
+    DOpen (w_d 7) w_assets_b ].
+
+Lemma good_wellformed : syntactic w_good /\ wellformed w_good /\ check_model w_good = VOk.
+Proof.
+  split; [apply syntactic_b_spec; vm_compute; reflexivity|].
+  split; [apply wellformed_b_spec; vm_compute; reflexivity|vm_compute; reflexivity].
+Qed.
+
+(* an ill-formed one: B is closed while it still holds 5.00 CHF *)
+Definition w_bad : list directive :=
+  let five := mkDec 500 (-2) in
+  [ DOpen (w_d 0) w_assets_a; DOpen (w_d 0) w_assets_b;
+    DTxn (mkTxn (w_d 1) [] (pair_build w_assets_a w_assets_b w_chf five dec_nil) None);
+    DClose (w_d 2) w_assets_b ].
+
+Lemma bad_illformed :
+  syntactic w_bad /\ ~ wellformed w_bad /\ check_model w_bad = VErr k_nonzero (acc_name w_assets_b) /\
+  exists pre, offender w_bad = Some (pre, EClose w_assets_b).
+Proof.
+  split; [apply syntactic_b_spec; vm_compute; reflexivity|].
+  split; [intros W; apply wellformed_b_spec in W; vm_compute in W; discriminate W|].
+  split; [vm_compute; reflexivity|]. eexists. vm_compute. reflexivity.
+Qed.
